@@ -99,7 +99,7 @@ class C03(ParamsProp):
     def corpus(self):
         return [dict(c) for c in CLAUSES] + super().corpus()
 
-    families = {"deep_ref_layers": 40, "empty_segments": 120, "override_through_path": 120, "many_refs": 20, "odd_keys": 80, "dup_in_one_mapping": 100, "colon_selectors": 120, "sibling_fullpath_refs": 40}
+    families = {"deep_ref_layers": 40, "empty_segments": 120, "override_through_path": 120, "many_refs": 20, "odd_keys": 80, "dup_in_one_mapping": 100, "colon_selectors": 120, "sibling_fullpath_refs": 40, "wide_layer_lookup": 100, "dangling_then_reset": 100, "embedded_through_layers": 40}
 
     def base_cases(self, tier, seed):
         N = 1200 if tier == "quick" else 30000
